@@ -619,5 +619,1490 @@ theorem _root_.MiniMoka.Sync.Counters.CInv.dropUpsert' {p : Params} {s : SState}
     · exact ⟨k', hh, v, o, w, hq, hi⟩
   wsum := h.wsum
 
+/-! ### what a step of another thread does -/
+
+/-- The effect of a plain step of another thread on the map, the infos and the logical queue
+(`Q`, `Q'`: physical write queue ++ write operations held, before and after). -/
+inductive MapEff (s s' : SState) (Q Q' : List WOp) : Prop where
+  | same : s'.map = s.map → s'.infos = s.infos → s'.nextId = s.nextId →
+      (∀ op, op ∈ Q' ↔ op ∈ Q) → MapEff s s' Q Q'
+  | put (k : Nat) (c : VE) (hh : UInt64) (o w : Nat) :
+      s'.map = AL.put s.map k c →
+      (∀ op, op ∈ Q' ↔ op ∈ Q ∨ op = WOp.upsert k hh c o w) →
+      s.nextId ≤ c.id → c.id < s'.nextId → s.nextId ≤ s'.nextId →
+      ((∃ old, AL.get? s.map k = some old ∧ c.info = old.info) ∨
+        (AL.get? s.map k = none ∧ c.info = s.nextId)) →
+      (∀ j, j < s.nextId → j ≠ c.info → getInfo s' j = getInfo s j) →
+      (∀ j, j < s.nextId → (getInfo s' j).admitted = (getInfo s j).admitted) →
+      MapEff s s' Q Q'
+  | erase (k : Nat) (old : VE) :
+      AL.get? s.map k = some old → s'.map = AL.erase s.map k → s'.infos = s.infos →
+      s'.nextId = s.nextId → (∀ op, op ∈ Q' ↔ op ∈ Q ∨ op = WOp.remove k old) →
+      MapEff s s' Q Q'
+
+theorem plain_step_eff (p : Params) {s : SState} {pd : List (Tid × Pend)}
+    (htid : (pd.map (·.1)).Nodup) (e : ConcS.Ev) (hpl : isPlain e = true) {c' : CState}
+    (hs : ConcS.step p ⟨s, pd⟩ e = some c') :
+    c'.s.prob = s.prob ∧
+    MapEff s c'.s (s.writeQ ++ pendWrites pd) (c'.s.writeQ ++ pendWrites c'.pending) := by
+  cases e with
+  | insMap t k v =>
+    simp only [ConcS.step] at hs
+    cases hp : pendOf pd t with
+    | some x => rw [hp] at hs; cases hs
+    | none =>
+      rw [hp] at hs
+      rw [← Option.some.inj hs]
+      dsimp only
+      unfold insertMap
+      dsimp only
+      cases hg : AL.get? s.map k with
+      | none =>
+        dsimp only
+        refine ⟨rfl, MapEff.put k _ (p.hash k) 0 (p.weigh k v) rfl ?_ (Nat.le_succ _)
+          (by show s.nextId + 1 < s.nextId + 2; omega) (Nat.le_add_right _ 2)
+          (Or.inr ⟨hg, rfl⟩) ?_ ?_⟩
+        · intro op
+          rw [pendWrites_append_write]
+          simp only [List.mem_append, List.mem_singleton, or_assoc]
+        · intro j hj hne
+          have e : ¬ s.nextId = j := fun e => Nat.lt_irrefl _ (e ▸ hj)
+          simp only [getInfo, AL.get?_put, if_neg e]
+        · intro j hj
+          have e : ¬ s.nextId = j := fun e => Nat.lt_irrefl _ (e ▸ hj)
+          simp only [getInfo, AL.get?_put, if_neg e]
+      | some old =>
+        dsimp only
+        refine ⟨rfl, MapEff.put k _ (p.hash k) (getInfo s old.info).weight (p.weigh k v) rfl ?_
+          (Nat.le_refl _) (Nat.lt_succ_self _) (Nat.le_succ _) (Or.inl ⟨old, hg, rfl⟩) ?_ ?_⟩
+        · intro op
+          rw [pendWrites_append_write]
+          simp only [List.mem_append, List.mem_singleton, or_assoc]
+          rfl
+        · intro j _ hne
+          show getInfo (refreshInfo p s old.info s.now (p.weigh k v)) j = getInfo s j
+          unfold refreshInfo
+          rw [getInfo_withInfo, if_neg (fun e => hne e.symm)]
+        · intro j _
+          show (getInfo (refreshInfo p s old.info s.now (p.weigh k v)) j).admitted = _
+          unfold refreshInfo
+          rw [getInfo_withInfo]
+          by_cases e : old.info = j
+          · rw [if_pos e, e]
+          · rw [if_neg e]
+  | invMap t k =>
+    simp only [ConcS.step] at hs
+    cases hp : pendOf pd t with
+    | some x => rw [hp] at hs; cases hs
+    | none =>
+      rw [hp] at hs
+      dsimp only at hs
+      unfold invalidateMap at hs
+      cases hg : AL.get? s.map k with
+      | none =>
+        rw [hg] at hs
+        dsimp only at hs
+        rw [← Option.some.inj hs]
+        exact ⟨rfl, MapEff.same rfl rfl rfl (fun _ => Iff.rfl)⟩
+      | some old =>
+        rw [hg] at hs
+        dsimp only at hs
+        rw [← Option.some.inj hs]
+        refine ⟨rfl, MapEff.erase k old hg rfl rfl rfl ?_⟩
+        intro op
+        show op ∈ s.writeQ ++ pendWrites (pd ++ [(t, Pend.write (WOp.remove k old))]) ↔ _
+        rw [pendWrites_append_write]
+        simp only [List.mem_append, List.mem_singleton, or_assoc]
+  | getMap t k =>
+    simp only [ConcS.step] at hs
+    cases hp : pendOf pd t with
+    | some x => rw [hp] at hs; cases hs
+    | none =>
+      rw [hp] at hs
+      rw [← Option.some.inj hs]
+      refine ⟨rfl, MapEff.same rfl rfl rfl ?_⟩
+      intro op
+      show op ∈ s.writeQ ++ pendWrites (pd ++ [(t, Pend.read (lookup p s k).1)]) ↔ _
+      rw [pendWrites_append_read]
+  | maint t => cases hpl
+  | sync t => cases hpl
+  | enq t =>
+    simp only [ConcS.step] at hs
+    cases hp : pendOf pd t with
+    | none => rw [hp] at hs; cases hs
+    | some x =>
+      rw [hp] at hs
+      have hmem := mem_of_pendOf htid hp
+      cases x with
+      | write op =>
+        dsimp only at hs
+        by_cases hl : s.writeQ.length < Gen.WRITE_LOG_SIZE
+        · rw [if_pos hl] at hs
+          rw [← Option.some.inj hs]
+          refine ⟨rfl, MapEff.same rfl rfl rfl ?_⟩
+          intro o
+          show o ∈ (s.writeQ ++ [op]) ++ pendWrites (dropPend pd t) ↔ _
+          simp only [List.mem_append, List.mem_singleton, mem_pendWrites]
+          constructor
+          · rintro ((h1 | h1) | ⟨t', h1⟩)
+            · exact Or.inl h1
+            · exact Or.inr ⟨t, by rw [h1]; exact (hmem _).mpr (Or.inl rfl)⟩
+            · exact Or.inr ⟨t', (hmem _).mpr (Or.inr h1)⟩
+          · rintro (h1 | ⟨t', h1⟩)
+            · exact Or.inl (Or.inl h1)
+            · rcases (hmem _).mp h1 with e' | h2
+              · injection e' with _ e2
+                injection e2 with e3
+                exact Or.inl (Or.inr e3)
+              · exact Or.inr ⟨t', h2⟩
+        · rw [if_neg hl] at hs; cases hs
+      | read op =>
+        dsimp only at hs
+        have hpw : ∀ o, o ∈ s.writeQ ++ pendWrites (dropPend pd t) ↔
+            o ∈ s.writeQ ++ pendWrites pd := by
+          intro o
+          simp only [List.mem_append, mem_pendWrites]
+          constructor
+          · rintro (h1 | ⟨t', h1⟩)
+            · exact Or.inl h1
+            · exact Or.inr ⟨t', (hmem _).mpr (Or.inr h1)⟩
+          · rintro (h1 | ⟨t', h1⟩)
+            · exact Or.inl h1
+            · rcases (hmem _).mp h1 with e' | h2
+              · injection e' with _ e2
+                cases e2
+              · exact Or.inr ⟨t', h2⟩
+        split at hs
+        · rw [← Option.some.inj hs]; exact ⟨rfl, MapEff.same rfl rfl rfl hpw⟩
+        · rw [← Option.some.inj hs]; exact ⟨rfl, MapEff.same rfl rfl rfl hpw⟩
+  | tick d =>
+    simp only [ConcS.step] at hs
+    rw [← Option.some.inj hs]
+    exact ⟨rfl, MapEff.same rfl rfl rfl (fun _ => Iff.rfl)⟩
+  | invAll t =>
+    simp only [ConcS.step] at hs
+    rw [← Option.some.inj hs]
+    exact ⟨rfl, MapEff.same rfl rfl rfl (fun _ => Iff.rfl)⟩
+
+/-! ### identities of queued value entries -/
+
+/-- Every pending `Upsert` carries a value entry whose identity has been allocated, and a map
+entry with that identity is that very value entry. -/
+def QIds (s : SState) (Q : List WOp) : Prop :=
+  ∀ k h ve o w, WOp.upsert k h ve o w ∈ Q →
+    ve.id < s.nextId ∧ ∀ k' c, AL.get? s.map k' = some c → c.id = ve.id → c = ve
+
+theorem QIds.mono {s s' : SState} {Q Q' : List WOp} (h : QIds s Q)
+    (hmap : ∀ k c, AL.get? s'.map k = some c → AL.get? s.map k = some c)
+    (hn : s.nextId ≤ s'.nextId)
+    (hq : ∀ k h ve o w, WOp.upsert k h ve o w ∈ Q' → WOp.upsert k h ve o w ∈ Q) :
+    QIds s' Q' := by
+  intro k hh ve o w hm
+  obtain ⟨a1, a2⟩ := h k hh ve o w (hq _ _ _ _ _ hm)
+  exact ⟨Nat.lt_of_lt_of_le a1 hn, fun k' c hc => a2 k' c (hmap k' c hc)⟩
+
+theorem qids_eff {s s' : SState} {Q Q' ex : List WOp} (h : QIds s (ex ++ Q))
+    (hkn : (AL.keys s.map).Nodup)
+    (hid : ∀ k c, AL.get? s.map k = some c → c.id < s.nextId)
+    (heff : MapEff s s' Q Q') : QIds s' (ex ++ Q') := by
+  cases heff with
+  | same hm hi hn hq =>
+    refine h.mono (fun k c hc => by rw [hm] at hc; exact hc) (by rw [hn]; exact Nat.le_refl _) ?_
+    intro k0 h0 ve o w hop
+    rcases List.mem_append.mp hop with h1 | h1
+    · exact List.mem_append_left _ h1
+    · exact List.mem_append_right _ ((hq _).mp h1)
+  | put k c hh o w hm hq h1 h2 h3 _ _ _ =>
+    intro k0 h0 ve o0 w0 hmem
+    have hget : ∀ k' c', AL.get? s'.map k' = some c' →
+        (k' = k ∧ c' = c) ∨ AL.get? s.map k' = some c' := by
+      intro k' c' hc'
+      rw [hm, AL.get?_put] at hc'
+      by_cases e : k = k'
+      · rw [if_pos e] at hc'; exact Or.inl ⟨e.symm, (Option.some.inj hc').symm⟩
+      · rw [if_neg e] at hc'; exact Or.inr hc'
+    have hold : WOp.upsert k0 h0 ve o0 w0 ∈ ex ++ Q ∨
+        WOp.upsert k0 h0 ve o0 w0 = WOp.upsert k hh c o w := by
+      rcases List.mem_append.mp hmem with a | a
+      · exact Or.inl (List.mem_append_left _ a)
+      · rcases (hq _).mp a with a | a
+        · exact Or.inl (List.mem_append_right _ a)
+        · exact Or.inr a
+    rcases hold with a | a
+    · obtain ⟨b1, b2⟩ := h k0 h0 ve o0 w0 a
+      refine ⟨Nat.lt_of_lt_of_le b1 h3, ?_⟩
+      intro k' c' hc' hid'
+      rcases hget k' c' hc' with ⟨_, e2⟩ | g
+      · exfalso
+        rw [e2] at hid'
+        rw [← hid'] at b1
+        exact Nat.lt_irrefl _ (Nat.lt_of_lt_of_le b1 h1)
+      · exact b2 k' c' g hid'
+    · injection a with _ _ e3 _ _
+      rw [e3]
+      refine ⟨h2, ?_⟩
+      intro k' c' hc' hid'
+      rcases hget k' c' hc' with ⟨_, e2⟩ | g
+      · exact e2
+      · exfalso
+        have := hid k' c' g
+        rw [hid'] at this
+        exact Nat.lt_irrefl _ (Nat.lt_of_lt_of_le this h1)
+  | erase k old hg hm hi hn hq =>
+    refine h.mono ?_ (by rw [hn]; exact Nat.le_refl _) ?_
+    · intro k' c hc
+      rw [hm, AL.get?_erase k k' hkn] at hc
+      by_cases e : k = k'
+      · simp [e] at hc
+      · rw [if_neg e] at hc; exact hc
+    · intro k0 h0 ve o w hop
+      rcases List.mem_append.mp hop with h1 | h1
+      · exact List.mem_append_left _ h1
+      · rcases (hq _).mp h1 with h2 | h2
+        · exact List.mem_append_right _ h2
+        · cases h2
+
+/-! ### what the run knows about the entry of the `Upsert` it is applying -/
+
+/-- The queued operation a program counter belongs to. -/
+def wop (u : UOp) : WOp := .upsert u.key u.hash u.ve u.oldW u.newW
+
+/-- After `set_dirty(false)`: if the info is dirty (again), another thread has updated the key
+since, and that update's `Upsert` is pending (`Qr`: queued or held, the one being applied
+excluded). -/
+def WD (s : SState) (Qr : List WOp) (u : UOp) : Prop :=
+  (getInfo s u.ve.info).dirty = true →
+    ∃ k' h v o w, WOp.upsert k' h v o w ∈ Qr ∧ v.info = u.ve.info
+
+/-- After the lookup of the current entry: `nw` is the weigher applied to the value of the
+entry of this info the map holds under the key, unless that entry is newer than the lookup,
+in which case its own `Upsert` is pending; an entry that was current at the lookup is still in
+the map or awaits a `Remove`; one that was not current never becomes current. -/
+structure WF (p : Params) (s : SState) (Qr : List WOp) (u : UOp) (nw : Nat) (cur : Bool) :
+    Prop where
+  dirty : WD s Qr u
+  wcur : ∀ c, AL.get? s.map u.key = some c → c.info = u.ve.info →
+    nw = p.weigh u.key c.val ∨ ∃ h o w, WOp.upsert u.key h c o w ∈ Qr
+  gone : cur = true → (∃ c, AL.get? s.map u.key = some c ∧ c.info = u.ve.info) ∨
+    ∃ k' v, WOp.remove k' v ∈ Qr ∧ v.info = u.ve.info
+  notCur : cur = false → ∀ c, AL.get? s.map u.key = some c → c.info ≠ u.ve.info
+
+theorem getInfo_of_infos {s s' : SState} (h : s'.infos = s.infos) (j : Nat) :
+    getInfo s' j = getInfo s j := getInfo_congr h j
+
+theorem wd_eff {s s' : SState} {Q Q' : List WOp} {u : UOp} (h : WD s Q u)
+    (hlt : u.ve.info < s.nextId) (heff : MapEff s s' Q Q') : WD s' Q' u := by
+  intro hd
+  cases heff with
+  | same hm hi hn hq =>
+    rw [getInfo_of_infos hi] at hd
+    obtain ⟨k', hh, v, o, w, a, b⟩ := h hd
+    exact ⟨k', hh, v, o, w, (hq _).mpr a, b⟩
+  | put k c hh o w hm hq h1 h2 h3 hinfo hfr hadm =>
+    by_cases e : u.ve.info = c.info
+    · exact ⟨k, hh, c, o, w, (hq _).mpr (Or.inr rfl), e.symm⟩
+    · rw [hfr _ hlt e] at hd
+      obtain ⟨k', h', v, o', w', a, b⟩ := h hd
+      exact ⟨k', h', v, o', w', (hq _).mpr (Or.inl a), b⟩
+  | erase k old hg hm hi hn hq =>
+    rw [getInfo_of_infos hi] at hd
+    obtain ⟨k', hh, v, o, w, a, b⟩ := h hd
+    exact ⟨k', hh, v, o, w, (hq _).mpr (Or.inl a), b⟩
+
+theorem wf_eff {p : Params} {s s' : SState} {Q Q' : List WOp} {u : UOp} {nw : Nat} {cur : Bool}
+    (h : WF p s Q u nw cur) (hkn : (AL.keys s.map).Nodup) (hlt : u.ve.info < s.nextId)
+    (heff : MapEff s s' Q Q') : WF p s' Q' u nw cur := by
+  refine ⟨wd_eff h.dirty hlt heff, ?_, ?_, ?_⟩
+  · -- wcur
+    intro c hc hi
+    cases heff with
+    | same hm _ _ hq =>
+      rw [hm] at hc
+      rcases h.wcur c hc hi with a | ⟨hh, o, w, a⟩
+      · exact Or.inl a
+      · exact Or.inr ⟨hh, o, w, (hq _).mpr a⟩
+    | put k c0 hh o w hm hq _ _ _ _ _ _ =>
+      rw [hm, AL.get?_put] at hc
+      by_cases e : k = u.key
+      · rw [if_pos e] at hc
+        have : c0 = c := Option.some.inj hc
+        subst this
+        exact Or.inr ⟨hh, o, w, (hq _).mpr (Or.inr (by rw [e]))⟩
+      · rw [if_neg e] at hc
+        rcases h.wcur c hc hi with a | ⟨h', o', w', a⟩
+        · exact Or.inl a
+        · exact Or.inr ⟨h', o', w', (hq _).mpr (Or.inl a)⟩
+    | erase k old hg hm _ _ hq =>
+      rw [hm, AL.get?_erase k u.key hkn] at hc
+      by_cases e : k = u.key
+      · simp [e] at hc
+      · rw [if_neg e] at hc
+        rcases h.wcur c hc hi with a | ⟨h', o', w', a⟩
+        · exact Or.inl a
+        · exact Or.inr ⟨h', o', w', (hq _).mpr (Or.inl a)⟩
+  · -- gone
+    intro hcur
+    cases heff with
+    | same hm _ _ hq =>
+      rcases h.gone hcur with ⟨c, a, b⟩ | ⟨k', v, a, b⟩
+      · exact Or.inl ⟨c, by rw [hm]; exact a, b⟩
+      · exact Or.inr ⟨k', v, (hq _).mpr a, b⟩
+    | put k c0 hh o w hm hq _ _ _ hinfo _ _ =>
+      rcases h.gone hcur with ⟨c, a, b⟩ | ⟨k', v, a, b⟩
+      · by_cases e : k = u.key
+        · refine Or.inl ⟨c0, by rw [hm, AL.get?_put, if_pos e], ?_⟩
+          rcases hinfo with ⟨old, g1, g2⟩ | ⟨g1, _⟩
+          · rw [e, a] at g1
+            rw [g2, ← Option.some.inj g1]; exact b
+          · rw [e, a] at g1; cases g1
+        · exact Or.inl ⟨c, by rw [hm, AL.get?_put, if_neg e]; exact a, b⟩
+      · exact Or.inr ⟨k', v, (hq _).mpr (Or.inl a), b⟩
+    | erase k old hg hm _ _ hq =>
+      rcases h.gone hcur with ⟨c, a, b⟩ | ⟨k', v, a, b⟩
+      · by_cases e : k = u.key
+        · rw [e, a] at hg
+          refine Or.inr ⟨k, old, (hq _).mpr (Or.inr rfl), ?_⟩
+          rw [← Option.some.inj hg]; exact b
+        · refine Or.inl ⟨c, ?_, b⟩
+          rw [hm, AL.get?_erase k u.key hkn, if_neg e]; exact a
+      · exact Or.inr ⟨k', v, (hq _).mpr (Or.inl a), b⟩
+  · -- notCur
+    intro hcur c hc
+    cases heff with
+    | same hm _ _ _ => rw [hm] at hc; exact h.notCur hcur c hc
+    | put k c0 hh o w hm hq _ _ _ hinfo _ _ =>
+      rw [hm, AL.get?_put] at hc
+      by_cases e : k = u.key
+      · rw [if_pos e] at hc
+        have : c0 = c := Option.some.inj hc
+        subst this
+        rcases hinfo with ⟨old, g1, g2⟩ | ⟨_, g2⟩
+        · rw [g2]
+          rw [e] at g1
+          exact h.notCur hcur old g1
+        · rw [g2]
+          exact fun e' => Nat.lt_irrefl _ (e' ▸ hlt)
+      · rw [if_neg e] at hc
+        exact h.notCur hcur c hc
+    | erase k old hg hm _ _ _ =>
+      rw [hm, AL.get?_erase k u.key hkn] at hc
+      by_cases e : k = u.key
+      · simp [e] at hc
+      · rw [if_neg e] at hc
+        exact h.notCur hcur c hc
+
+/-- The admission flag of an allocated info is not touched by other threads. -/
+theorem adm_eff {s s' : SState} {Q Q' : List WOp} (heff : MapEff s s' Q Q') {j : Nat}
+    (hlt : j < s.nextId) : (getInfo s' j).admitted = (getInfo s j).admitted := by
+  cases heff with
+  | same _ hi _ _ => rw [getInfo_of_infos hi]
+  | put k c hh o w _ _ _ _ _ _ _ hadm => exact hadm j hlt
+  | erase _ _ _ _ hi _ _ => rw [getInfo_of_infos hi]
+
+/-! ### the run-local invariant with extra pending operations, under steps of other threads -/
+
+theorem topinv_view {s : SState} (h : RunInv Sketch.Good s) : TopInv Sketch.Good (view s) :=
+  ⟨⟨⟨h.safe.toNodesCore.congr (fun _ => rfl) (fun _ => rfl) (fun _ => rfl)
+    (List.Perm.refl _) (List.Perm.refl _) (Nat.le_refl _), h.safe.count⟩,
+    ⟨h.map.kn, h.map.bound⟩, ⟨h.sk.sk, h.sk.skOff⟩⟩, h.safe.nofault⟩
+
+theorem runinv_of_view {s : SState} (h : TopInv Sketch.Good (view s)) : RunInv Sketch.Good s :=
+  ⟨⟨⟨h.nodes.toNodesCore.congr (fun _ => rfl) (fun _ => rfl) (fun _ => rfl)
+    (List.Perm.refl _) (List.Perm.refl _) (Nat.le_refl _), h.nodes.count⟩, h.nofault⟩,
+    ⟨h.map.kn, h.map.bound⟩, ⟨h.sk.sk, h.sk.skOff⟩⟩
+
+theorem ctop_view {p : Params} {s : SState} {Q : List WOp} (h : CInv p s Q) :
+    CTop p (view s) Q := by
+  show CInv p { view s with cec := (view s).ec, cws := (view s).ws } Q
+  exact h.same (same_of_eq rfl rfl rfl rfl rfl rfl)
+
+theorem cinv_of_view {p : Params} {s : SState} {Q : List WOp} (h : CTop p (view s) Q) :
+    CInv p s Q := by
+  have h1 : CInv p { view s with cec := (view s).ec, cws := (view s).ws } Q := h
+  exact h1.same (same_of_eq rfl rfl rfl rfl rfl rfl)
+
+theorem runinv_of_eq {s s' : SState} (h : RunInv Sketch.Good s) (hm : s'.map = s.map)
+    (hi : s'.infos = s.infos) (hp : s'.prob = s.prob) (hw : s'.wo = s.wo)
+    (hn : s'.nextId = s.nextId) (hc : s'.cec = s.cec) (hsk : s'.sk = s.sk)
+    (hon : s'.skOn = s.skOn) (hf : s'.fault = s.fault) : RunInv Sketch.Good s' :=
+  ⟨h.safe.of_eq hi hp hw (by rw [hn]; exact Nat.le_refl _) hc hf,
+    ⟨by rw [hm]; exact h.map.kn, by rw [hm, hn]; exact h.map.bound⟩,
+    ⟨by rw [hsk]; exact h.sk.sk, by rw [hsk, hon]; exact h.sk.skOff⟩⟩
+
+/-- A plain step of another thread keeps the run-local invariant; operations `ex` that are
+neither queued nor held (the one the run is applying) stay pending. -/
+theorem plain_step_rinvx {p : Params} (hq : NoQuirks p) {s : SState} {pd : List (Tid × Pend)}
+    (ex : List WOp) (hrun : RunInv Sketch.Good s)
+    (hc : CInv p s (s.writeQ ++ pendWrites pd ++ ex)) (htid : (pd.map (·.1)).Nodup)
+    (hwq : s.writeQ.length ≤ Gen.WRITE_LOG_SIZE) (hrq : s.readQ.length ≤ Gen.READ_LOG_SIZE)
+    (e : ConcS.Ev) (hpl : isPlain e = true) {c' : CState}
+    (hs : ConcS.step p ⟨s, pd⟩ e = some c') :
+    RunInv Sketch.Good c'.s ∧
+    CInv p c'.s (c'.s.writeQ ++ pendWrites c'.pending ++ ex) ∧
+    (c'.pending.map (·.1)).Nodup ∧
+    c'.s.writeQ.length ≤ Gen.WRITE_LOG_SIZE ∧ c'.s.readQ.length ≤ Gen.READ_LOG_SIZE := by
+  cases e with
+  | insMap t k v =>
+    simp only [ConcS.step] at hs
+    cases hp : pendOf pd t with
+    | some x => rw [hp] at hs; cases hs
+    | none =>
+      rw [hp] at hs
+      rw [← Option.some.inj hs]
+      dsimp only
+      obtain ⟨a1, a2, a3, a4, _⟩ := insertMap_inv hq (topinv_view hrun) (ctop_view hc) k v
+      rw [insertMap_view] at a1 a2 a3 a4
+      dsimp only at a1 a2 a3 a4
+      have b3 : (insertMap p s k v).1.writeQ = s.writeQ := a3
+      have b4 : (insertMap p s k v).1.readQ = s.readQ := a4
+      refine ⟨runinv_of_view a1, ?_, tids_append _ htid hp, by rw [b3]; exact hwq,
+        by rw [b4]; exact hrq⟩
+      refine CInv.of_mem (cinv_of_view a2) ?_
+      intro op
+      rw [b3, pendWrites_append_write]
+      simp only [List.mem_append, List.mem_singleton, or_comm, or_left_comm]
+  | invMap t k =>
+    simp only [ConcS.step] at hs
+    cases hp : pendOf pd t with
+    | some x => rw [hp] at hs; cases hs
+    | none =>
+      rw [hp] at hs
+      dsimp only at hs
+      cases ho : (invalidateMap s k).2 with
+      | none =>
+        rw [ho] at hs
+        rw [← Option.some.inj hs]
+        exact ⟨hrun, hc, htid, hwq, hrq⟩
+      | some op =>
+        rw [ho] at hs
+        rw [← Option.some.inj hs]
+        dsimp only
+        have ho' : (invalidateMap (view s) k).2 = some op := by rw [invalidateMap_view]; exact ho
+        obtain ⟨a1, a2, a3, a4, _⟩ :=
+          invalidateMap_inv (topinv_view hrun) (ctop_view hc) k op ho'
+        rw [invalidateMap_view] at a1 a2 a3 a4
+        dsimp only at a1 a2 a3 a4
+        have b3 : (invalidateMap s k).1.writeQ = s.writeQ := a3
+        have b4 : (invalidateMap s k).1.readQ = s.readQ := a4
+        refine ⟨runinv_of_view a1, ?_, tids_append _ htid hp, by rw [b3]; exact hwq,
+          by rw [b4]; exact hrq⟩
+        refine CInv.of_mem (cinv_of_view a2) ?_
+        intro o
+        rw [b3, pendWrites_append_write]
+        simp only [List.mem_append, List.mem_singleton, or_comm, or_left_comm]
+  | getMap t k =>
+    simp only [ConcS.step] at hs
+    cases hp : pendOf pd t with
+    | some x => rw [hp] at hs; cases hs
+    | none =>
+      rw [hp] at hs
+      rw [← Option.some.inj hs]
+      refine ⟨hrun, ?_, tids_append _ htid hp, hwq, hrq⟩
+      show CInv p s (s.writeQ ++ pendWrites (pd ++ [(t, Pend.read (lookup p s k).1)]) ++ ex)
+      rw [pendWrites_append_read]
+      exact hc
+  | maint t => cases hpl
+  | sync t => cases hpl
+  | enq t =>
+    have heff := (plain_step_eff p htid (.enq t) rfl hs).2
+    simp only [ConcS.step] at hs
+    cases hp : pendOf pd t with
+    | none => rw [hp] at hs; cases hs
+    | some x =>
+      rw [hp] at hs
+      have hqm : ∀ op, op ∈ c'.s.writeQ ++ pendWrites c'.pending ↔
+          op ∈ s.writeQ ++ pendWrites pd := by
+        cases heff with
+        | same _ _ _ hq' => exact hq'
+        | put k c hh o w hm _ _ h2 _ _ _ _ =>
+          exfalso
+          cases x with
+          | write op =>
+            dsimp only at hs
+            split at hs
+            · rw [← Option.some.inj hs] at h2
+              exact Nat.lt_irrefl _ (Nat.lt_of_le_of_lt ‹s.nextId ≤ c.id› h2)
+            · cases hs
+          | read op =>
+            dsimp only at hs
+            split at hs
+            · rw [← Option.some.inj hs] at h2
+              exact Nat.lt_irrefl _ (Nat.lt_of_le_of_lt ‹s.nextId ≤ c.id› h2)
+            · rw [← Option.some.inj hs] at h2
+              exact Nat.lt_irrefl _ (Nat.lt_of_le_of_lt ‹s.nextId ≤ c.id› h2)
+        | erase k old hg hm _ _ _ =>
+          exfalso
+          have hlen : c'.s.map.length = s.map.length := by
+            cases x with
+            | write op =>
+              dsimp only at hs
+              split at hs
+              · rw [← Option.some.inj hs]
+              · cases hs
+            | read op =>
+              dsimp only at hs
+              split at hs
+              · rw [← Option.some.inj hs]
+              · rw [← Option.some.inj hs]
+          rw [hm] at hlen
+          have := AL.length_erase_of_get? hg
+          omega
+      have hcq : CInv p s (c'.s.writeQ ++ pendWrites c'.pending ++ ex) := by
+        refine CInv.of_mem hc ?_
+        intro op
+        simp only [List.mem_append] at hqm ⊢
+        rw [hqm]
+      cases x with
+      | write op =>
+        dsimp only at hs
+        by_cases hl : s.writeQ.length < Gen.WRITE_LOG_SIZE
+        · rw [if_pos hl] at hs
+          rw [← Option.some.inj hs] at hcq ⊢
+          refine ⟨runinv_of_eq hrun rfl rfl rfl rfl rfl rfl rfl rfl rfl,
+            hcq.same (same_of_eq rfl rfl rfl rfl rfl rfl), dropPend_tids_nodup t htid, ?_, hrq⟩
+          show (s.writeQ ++ [op]).length ≤ _
+          rw [List.length_append]
+          exact hl
+        · rw [if_neg hl] at hs; cases hs
+      | read op =>
+        dsimp only at hs
+        by_cases hl : s.readQ.length < Gen.READ_LOG_SIZE
+        · rw [if_pos hl] at hs
+          rw [← Option.some.inj hs] at hcq ⊢
+          refine ⟨runinv_of_eq hrun rfl rfl rfl rfl rfl rfl rfl rfl rfl,
+            hcq.same (same_of_eq rfl rfl rfl rfl rfl rfl), dropPend_tids_nodup t htid, hwq, ?_⟩
+          show (s.readQ ++ [op]).length ≤ _
+          rw [List.length_append]
+          exact hl
+        · rw [if_neg hl] at hs
+          rw [← Option.some.inj hs] at hcq ⊢
+          exact ⟨hrun, hcq, dropPend_tids_nodup t htid, hwq, hrq⟩
+  | tick d =>
+    simp only [ConcS.step] at hs
+    rw [← Option.some.inj hs]
+    exact ⟨runinv_of_eq hrun rfl rfl rfl rfl rfl rfl rfl rfl rfl,
+      hc.same (same_of_eq rfl rfl rfl rfl rfl rfl), htid, hwq, hrq⟩
+  | invAll t =>
+    simp only [ConcS.step] at hs
+    rw [← Option.some.inj hs]
+    exact ⟨runinv_of_eq hrun rfl rfl rfl rfl rfl rfl rfl rfl rfl,
+      hc.same (same_of_eq rfl rfl rfl rfl rfl rfl), htid, hwq, hrq⟩
+
+/-! ### the invariant between two steps of one `Upsert` -/
+
+/-- The queued operation a program counter belongs to. -/
+def opOf : WPc → UOp
+  | .clearDirty u => u
+  | .readCurrent u => u
+  | .dispatch u _ _ => u
+  | .scan u _ _ _ _ => u
+  | .victims u _ _ _ => u
+  | .reject u _ => u
+  | .readCurrentB1 u => u
+  | .clearDirtyB1 u _ _ => u
+  | .victimsB2 u _ _ _ _ _ => u
+  | .putBackB2 u _ _ => u
+
+/-- The part that does not depend on the program counter: the run-local invariant, with the
+operation being applied still counted as pending. -/
+structure WBase (p : Params) (s : SState) (pd : List (Tid × Pend)) (u : UOp) : Prop where
+  run : RunInv Sketch.Good s
+  cinv : CInv p s (wop u :: (s.writeQ ++ pendWrites pd))
+  tids : (pd.map (·.1)).Nodup
+  wq : s.writeQ.length ≤ Gen.WRITE_LOG_SIZE
+  rq : s.readQ.length ≤ Gen.READ_LOG_SIZE
+  qids : QIds s (wop u :: (s.writeQ ++ pendWrites pd))
+
+/-- Run-local node lists (victims, skipped, still to scan): nodes of the access-order list,
+pairwise distinct. -/
+def Lists (l : List AoNode) (s : SState) : Prop :=
+  (∀ m, m ∈ l → m ∈ s.prob) ∧ (l.map (·.id)).Nodup
+
+/-- The part that depends on the program counter (`False` for the program counters of the
+seeded variants, which the current code never reaches). -/
+def WLocal (p : Params) (s : SState) (Qr : List WOp) : WPc → Prop
+  | .clearDirty _ => True
+  | .readCurrent u => WD s Qr u
+  | .dispatch u nw cur => WF p s Qr u nw cur
+  | .scan u nw _ rest acc =>
+    WF p s Qr u nw true ∧ (getInfo s u.ve.info).admitted = false ∧
+      Lists (acc.victims ++ acc.skipped ++ rest) s
+  | .victims u nw vs sk =>
+    WF p s Qr u nw true ∧ (getInfo s u.ve.info).admitted = false ∧ Lists (vs ++ sk) s
+  | .reject u sk => WD s Qr u ∧ (getInfo s u.ve.info).admitted = false ∧ Lists sk s
+  | _ => False
+
+theorem WBase.lt {p : Params} {s : SState} {pd : List (Tid × Pend)} {u : UOp}
+    (h : WBase p s pd u) : u.ve.info < s.nextId :=
+  (h.cinv.upKey u.key u.hash u.ve u.oldW u.newW List.mem_cons_self).2
+
+theorem WBase.keyi {p : Params} {s : SState} {pd : List (Tid × Pend)} {u : UOp}
+    (h : WBase p s pd u) : (getInfo s u.ve.info).key = u.key :=
+  (h.cinv.upKey u.key u.hash u.ve u.oldW u.newW List.mem_cons_self).1
+
+theorem Lists.of_prob {l : List AoNode} {s s' : SState} (h : Lists l s) (hp : s'.prob = s.prob) :
+    Lists l s' := ⟨fun m hm => by rw [hp]; exact h.1 m hm, h.2⟩
+
+/-- Steps of other threads keep the invariant of a half-applied `Upsert`. -/
+theorem plain_step_winv {p : Params} (hq : NoQuirks p) {s : SState} {pd : List (Tid × Pend)}
+    {pc : WPc} (hb : WBase p s pd (opOf pc))
+    (hl : WLocal p s (s.writeQ ++ pendWrites pd) pc) (e : ConcS.Ev) (hpl : isPlain e = true)
+    {c' : CState} (hs : ConcS.step p ⟨s, pd⟩ e = some c') :
+    WBase p c'.s c'.pending (opOf pc) ∧
+      WLocal p c'.s (c'.s.writeQ ++ pendWrites c'.pending) pc := by
+  obtain ⟨hprob, heff⟩ := plain_step_eff p hb.tids e hpl hs
+  have hc0 : CInv p s (s.writeQ ++ pendWrites pd ++ [wop (opOf pc)]) :=
+    CInv.of_mem hb.cinv (fun op => by
+      simp only [List.mem_append, List.mem_cons, List.not_mem_nil, false_or, or_comm,
+        or_left_comm])
+  obtain ⟨a1, a2, a3, a4, a5⟩ :=
+    plain_step_rinvx hq [wop (opOf pc)] hb.run hc0 hb.tids hb.wq hb.rq e hpl hs
+  have hkn := hb.run.map.kn
+  have hlt := hb.lt
+  have hqids : QIds c'.s (wop (opOf pc) :: (c'.s.writeQ ++ pendWrites c'.pending)) :=
+    qids_eff (ex := [wop (opOf pc)]) hb.qids hkn (fun k c hc => (hb.cinv.mapId k c hc).1) heff
+  refine ⟨⟨a1, CInv.of_mem a2 (fun op => by
+      simp only [List.mem_append, List.mem_cons, List.not_mem_nil, false_or, or_comm,
+        or_left_comm]),
+    a3, a4, a5, hqids⟩, ?_⟩
+  cases pc with
+  | clearDirty u => trivial
+  | readCurrent u => exact wd_eff hl hlt heff
+  | dispatch u nw cur => exact wf_eff hl hkn hlt heff
+  | scan u nw cf rest acc =>
+    exact ⟨wf_eff hl.1 hkn hlt heff, (adm_eff heff hlt).trans hl.2.1,
+      hl.2.2.of_prob hprob⟩
+  | victims u nw vs sk =>
+    exact ⟨wf_eff hl.1 hkn hlt heff, (adm_eff heff hlt).trans hl.2.1,
+      hl.2.2.of_prob hprob⟩
+  | reject u sk =>
+    exact ⟨wd_eff hl.1 hlt heff, (adm_eff heff hlt).trans hl.2.1, hl.2.2.of_prob hprob⟩
+  | readCurrentB1 u => exact hl
+  | clearDirtyB1 u nw cur => exact hl
+  | victimsB2 u nw vs sk ev al => exact hl
+  | putBackB2 u ev sk => exact hl
+
+/-! ### the steps of one `Upsert` keep the invariant -/
+
+/-- What must hold after a step of the application of an `Upsert`: queues and flag untouched;
+either the next program counter with its invariant, or (the operation is done) the run-local
+invariant of `ConcM` with the operation no longer pending. -/
+def WNext (p : Params) (pd : List (Tid × Pend)) (u : UOp) (s : SState)
+    (r : SState × Option WPc) : Prop :=
+  r.1.writeQ = s.writeQ ∧ r.1.readQ = s.readQ ∧ r.1.running = s.running ∧
+  match r.2 with
+  | some pc' => opOf pc' = u ∧ WBase p r.1 pd u ∧ WLocal p r.1 (r.1.writeQ ++ pendWrites pd) pc'
+  | none => RInv p r.1 pd ∧ QIds r.1 (r.1.writeQ ++ pendWrites pd)
+
+theorem WBase.g {p : Params} {s : SState} {pd : List (Tid × Pend)} {u : UOp}
+    (h : WBase p s pd u) : G p s (wop u :: (s.writeQ ++ pendWrites pd)) :=
+  ⟨h.run.safe, h.run.map, h.cinv⟩
+
+/-- A state reached by a step that keeps queues, allocation counter and the map's bindings (or
+removes some) and for which the counters invariant has been re-established. -/
+theorem wbase_of {p : Params} {s s' : SState} {pd : List (Tid × Pend)} {u : UOp}
+    (h : WBase p s pd u) (hs : Safe s') (hf : Frame0 s s') (hk : SkOK Sketch.Good s')
+    (hw : s'.writeQ = s.writeQ) (hr : s'.readQ = s.readQ)
+    (hc : CInv p s' (wop u :: (s.writeQ ++ pendWrites pd))) : WBase p s' pd u :=
+  ⟨⟨hs, h.run.map.frame0 hf, hk⟩, by rw [hw]; exact hc, h.tids, by rw [hw]; exact h.wq,
+    by rw [hr]; exact h.rq, by
+      rw [hw]
+      exact h.qids.mono (hf.mapSub h.run.map.kn) hf.nextId (fun _ _ _ _ _ hm => hm)⟩
+
+/-- The operation is done: it leaves the logical queue. -/
+theorem rinv_of_done {p : Params} {s s' : SState} {pd : List (Tid × Pend)} {u : UOp}
+    (h : WBase p s pd u) (hs : Safe s') (hf : Frame0 s s') (hk : SkOK Sketch.Good s')
+    (hw : s'.writeQ = s.writeQ) (hr : s'.readQ = s.readQ)
+    (hc : CInv p s' (s.writeQ ++ pendWrites pd)) :
+    RInv p s' pd ∧ QIds s' (s'.writeQ ++ pendWrites pd) :=
+  ⟨⟨⟨hs, h.run.map.frame0 hf, hk⟩, by rw [hw]; exact hc, h.tids, by rw [hw]; exact h.wq,
+    by rw [hr]; exact h.rq⟩, by
+      rw [hw]
+      exact h.qids.mono (hf.mapSub h.run.map.kn) hf.nextId
+        (fun _ _ _ _ _ hm => List.mem_cons_of_mem _ hm)⟩
+
+theorem mem_wop_cons {u : UOp} {Qr : List WOp} {op : WOp} (h : op ∈ Qr) : op ∈ wop u :: Qr :=
+  List.mem_cons_of_mem _ h
+
+/-- `handle_admit` as the last map-independent act of an `Upsert` (room, or after the victims). -/
+theorem admit_done {p : Params} (hq : NoQuirks p) {s : SState} {pd : List (Tid × Pend)} {u : UOp}
+    {nw : Nat} (hb : WBase p s pd u) (hl : WF p s (s.writeQ ++ pendWrites pd) u nw true)
+    (hna : (getInfo s u.ve.info).admitted = false) :
+    Safe (handleAdmit p s u.key u.hash u.ve nw) ∧
+    Keeps s (handleAdmit p s u.key u.hash u.ve nw) ∧
+    CInv p (handleAdmit p s u.key u.hash u.ve nw) (s.writeQ ++ pendWrites pd) := by
+  obtain ⟨h1, h2⟩ := handleAdmit_safe (p := p) hb.run.safe u.key u.hash u.ve nw hna hb.lt
+  refine ⟨h1, h2, ?_⟩
+  have hcur : (∃ c, AL.get? s.map u.key = some c ∧ c.info = u.ve.info ∧ c.slot = u.ve.slot) ∨
+      ((∀ c, AL.get? s.map u.key = some c → c.info ≠ u.ve.info) ∧
+        ∃ k' v, WOp.remove k' v ∈ wop u :: (s.writeQ ++ pendWrites pd) ∧ v.info = u.ve.info) := by
+    by_cases hex : ∃ c, AL.get? s.map u.key = some c ∧ c.info = u.ve.info
+    · obtain ⟨c, g1, g2⟩ := hex
+      exact Or.inl ⟨c, g1, g2,
+        hb.cinv.upSlot u.key u.hash u.ve u.oldW u.newW List.mem_cons_self c g1 g2⟩
+    · refine Or.inr ⟨fun c hc hi => hex ⟨c, hc, hi⟩, ?_⟩
+      rcases hl.gone rfl with g | ⟨k', v, g1, g2⟩
+      · exact absurd g hex
+      · exact ⟨k', v, mem_wop_cons g1, g2⟩
+  obtain ⟨a1, a2, a3, a4, a5⟩ :=
+    handleAdmit_cinv' hq hb.cinv hb.run.safe u.key u.hash u.ve nw hb.keyi hna hcur
+  refine a1.dropUpsert' ?_ ?_
+  · intro hk
+    rw [a2] at hk
+    rcases hl.wcur u.ve hk rfl with e | pend
+    · exact Or.inr ⟨a3, by rw [a4]; exact e⟩
+    · exact Or.inl pend
+  · intro hd
+    rw [a5] at hd
+    exact hl.dirty hd
+
+/-- `remove_if(key, same value entry)` as the last map access of a rejected `Upsert`. -/
+theorem reject_done {p : Params} (hq : NoQuirks p) {s : SState} {pd : List (Tid × Pend)}
+    {u : UOp} (hb : WBase p s pd u) (hd : WD s (s.writeQ ++ pendWrites pd) u)
+    (hna : (getInfo s u.ve.info).admitted = false) :
+    Safe (removeCandidate p s u.key u.ve) ∧ Keeps s (removeCandidate p s u.key u.ve) ∧
+    CInv p (removeCandidate p s u.key u.ve) (s.writeQ ++ pendWrites pd) := by
+  have hd7 : p.q.d7 = false := by rw [hq]
+  obtain ⟨h1, h2⟩ := removeCandidate_safe (p := p) hb.run.safe u.key u.ve
+  refine ⟨h1, h2, ?_⟩
+  unfold removeCandidate
+  cases hg : AL.get? s.map u.key with
+  | none =>
+    dsimp only
+    refine hb.cinv.dropUpsert' ?_ hd
+    intro hk; rw [hg] at hk; cases hk
+  | some c =>
+    dsimp only
+    rw [hd7, Bool.false_or]
+    by_cases e : (c.id == u.ve.id) = true
+    · rw [if_pos e]
+      have hcv : c = u.ve :=
+        (hb.qids u.key u.hash u.ve u.oldW u.newW List.mem_cons_self).2 u.key c hg (eq_of_beq e)
+      have hc1 := hb.cinv.eraseNotAdm hb.run.safe hb.run.map hg (by rw [hcv]; exact hna)
+      refine hc1.dropUpsert' ?_ hd
+      intro hk
+      have : AL.get? (AL.erase s.map u.key) u.key = none := AL.get?_erase_self u.key hb.run.map.kn
+      rw [this] at hk; cases hk
+    · rw [if_neg e]
+      refine hb.cinv.dropUpsert' ?_ hd
+      intro hk
+      rw [hg] at hk
+      rw [Option.some.inj hk] at e
+      simp at e
+
+theorem Lists.perm {l l' : List AoNode} {s : SState} (h : Lists l s) (hp : l'.Perm l) :
+    Lists l' s :=
+  ⟨fun m hm => h.1 m (hp.mem_iff.mp hm), ((hp.map (·.id)).nodup_iff).mpr h.2⟩
+
+theorem Lists.left {a b : List AoNode} {s : SState} (h : Lists (a ++ b) s) : Lists a s := by
+  refine ⟨fun m hm => h.1 m (List.mem_append_left _ hm), ?_⟩
+  have := h.2
+  rw [List.map_append, List.nodup_append] at this
+  exact this.1
+
+theorem perm_scan_victim (a b r : List AoNode) (n : AoNode) :
+    ((a ++ [n]) ++ b ++ r).Perm (a ++ b ++ (n :: r)) := by
+  simp only [List.append_assoc, List.singleton_append]
+  exact (List.perm_middle.symm).append_left a
+
+theorem perm_scan_skip (a b r : List AoNode) (n : AoNode) :
+    (a ++ (b ++ [n]) ++ r).Perm (a ++ b ++ (n :: r)) := by
+  simp only [List.append_assoc, List.singleton_append]
+  exact List.Perm.refl _
+
+theorem lists_finish {v s : List AoNode} {r : List AoNode} {st : SState}
+    (h : Lists (v ++ s ++ r) st) : Lists (v ++ s) st := h.left
+
+/-- The decision at the end of the admission scan. -/
+theorem finishScan_next {p : Params} {s : SState} {pd : List (Tid × Pend)} {u : UOp}
+    {nw cf : Nat} {acc : Admission} (hb : WBase p s pd u)
+    (hf : WF p s (s.writeQ ++ pendWrites pd) u nw true)
+    (hna : (getInfo s u.ve.info).admitted = false)
+    (hls : Lists (acc.victims ++ acc.skipped) s) :
+    WNext p pd u s (finishScan .good s u nw cf acc) := by
+  unfold finishScan
+  by_cases hc : acc.vw ≥ nw ∧ cf > acc.vf
+  · rw [if_pos hc]
+    exact ⟨rfl, rfl, rfl, rfl, hb, hf, hna, hls⟩
+  · rw [if_neg hc]
+    refine ⟨rfl, rfl, rfl, rfl, hb, hf.dirty, hna, ?_⟩
+    exact ⟨fun m hm => hls.1 m (List.mem_append_right _ hm), by
+      have := hls.2
+      rw [List.map_append, List.nodup_append] at this
+      exact this.2.1⟩
+
+/-- Every step of the application of an `Upsert` keeps the invariant. -/
+theorem wstep_next {p : Params} (hq : NoQuirks p) {s : SState} {pd : List (Tid × Pend)}
+    {pc : WPc} (hb : WBase p s pd (opOf pc))
+    (hl : WLocal p s (s.writeQ ++ pendWrites pd) pc) :
+    WNext p pd (opOf pc) s (wstep p .good s pc) := by
+  have hd7 : p.q.d7 = false := by rw [hq]
+  have hd10 : p.q.d10 = false := by rw [hq]
+  cases pc with
+  | clearDirty u =>
+    have hb : WBase p s pd u := hb
+    show WNext p pd u s
+      (withInfo s u.ve.info (fun i => { i with dirty := false }), some (.readCurrent u))
+    have hsame : Same s (withInfo s u.ve.info (fun i => { i with dirty := false })) :=
+      same_withInfo _ _ _ (fun x => ⟨rfl, rfl, rfl, fun hx => by cases hx⟩)
+    refine ⟨rfl, rfl, rfl, rfl,
+      wbase_of (s' := withInfo s u.ve.info (fun i => { i with dirty := false })) hb
+        (hb.run.safe.withInfo _ _ rfl rfl rfl) (frame0_withInfo' _ _ _)
+        ⟨hb.run.sk.sk, hb.run.sk.skOff⟩ rfl rfl (hb.cinv.same hsame), ?_⟩
+    intro hx
+    rw [getInfo_withInfo, if_pos rfl] at hx
+    cases hx
+  | readCurrent u =>
+    have hb : WBase p s pd u := hb
+    have hl : WD s (s.writeQ ++ pendWrites pd) u := hl
+    show WNext p pd u s
+      (s, some (.dispatch u (currentWeight p s u.key u.ve u.newW) (isCurrentEntry s u.key u.ve)))
+    refine ⟨rfl, rfl, rfl, rfl, hb, hl, ?_, ?_, ?_⟩
+    · intro c hc hi
+      left
+      unfold currentWeight
+      rw [hd10, hc]
+      simp [hi]
+    · intro hcur
+      unfold isCurrentEntry at hcur
+      cases hg : AL.get? s.map u.key with
+      | none => rw [hg] at hcur; cases hcur
+      | some c =>
+        rw [hg] at hcur
+        exact Or.inl ⟨c, rfl, eq_of_beq hcur⟩
+    · intro hcur c hc hi
+      unfold isCurrentEntry at hcur
+      have hc' : AL.get? s.map u.key = some c := hc
+      rw [hc'] at hcur
+      dsimp only at hcur
+      rw [hi] at hcur
+      simp at hcur
+  | dispatch u nw cur =>
+    have hb : WBase p s pd u := hb
+    have hl : WF p s (s.writeQ ++ pendWrites pd) u nw cur := hl
+    show WNext p pd u s (wstep p .good s (.dispatch u nw cur))
+    by_cases c1 : (getInfo s u.ve.info).admitted = true
+    · have hm : wstep p .good s (.dispatch u nw cur) = (applyUpdate p s u.ve u.oldW nw, none) := by
+        simp only [wstep, if_pos c1]
+      rw [hm]
+      have hqf := applyUpdate_qframe p s u.ve u.oldW nw
+      obtain ⟨a1, a2, a3, a4, a5⟩ := applyUpdate_cinv' hq hb.cinv hb.run.safe u.ve u.oldW nw c1 (by
+        intro k c hc hi
+        have hk : k = u.key := by rw [← hb.cinv.mapKey k c hc, hi]; exact hb.keyi
+        subst hk
+        rcases hl.wcur c hc hi with e | ⟨hh, o, w, e⟩
+        · exact Or.inl e
+        · exact Or.inr ⟨hh, o, w, mem_wop_cons e⟩)
+      refine ⟨hqf.writeQ, hqf.readQ, hqf.running,
+        rinv_of_done hb (applyUpdate_safe hb.run.safe _ _ _) (applyUpdate_frame0 _ _ _ _ _)
+          (hb.run.sk.same (applyUpdate_sk _ _ _ _ _)) hqf.writeQ hqf.readQ ?_⟩
+      refine a1.dropUpsert' ?_ ?_
+      · intro hk
+        rw [a2] at hk
+        rcases hl.wcur u.ve hk rfl with e | pend
+        · exact Or.inr ⟨a3, by rw [a4]; exact e⟩
+        · exact Or.inl pend
+      · intro hd
+        exact hl.dirty (a5 _ hd)
+    · have hna : (getInfo s u.ve.info).admitted = false := by
+        cases hx : (getInfo s u.ve.info).admitted with
+        | false => rfl
+        | true => exact absurd hx c1
+      by_cases c2 : (!p.q.d7 && !cur) = true
+      · have hm : wstep p .good s (.dispatch u nw cur) = (s, none) := by
+          simp only [wstep, if_neg c1, if_pos c2]
+        rw [hm]
+        have hcur : cur = false := by
+          rw [hd7] at c2
+          cases cur with
+          | false => rfl
+          | true => simp at c2
+        refine ⟨rfl, rfl, rfl,
+          rinv_of_done hb hb.run.safe (Frame0.refl s) hb.run.sk rfl rfl ?_⟩
+        refine hb.cinv.dropUpsert' ?_ hl.dirty
+        intro hk
+        exact absurd rfl (hl.notCur hcur u.ve hk)
+      · have hcur : cur = true := by
+          rw [hd7] at c2
+          cases cur with
+          | true => rfl
+          | false => simp at c2
+        rw [hcur] at hl
+        by_cases c3 : hasEnoughCapacity p nw s = true
+        · have hm : wstep p .good s (.dispatch u nw cur) =
+              (handleAdmit p s u.key u.hash u.ve nw, none) := by
+            simp only [wstep, if_neg c1, if_neg c2, if_pos c3]
+          rw [hm]
+          have hqf := handleAdmit_qframe p s u.key u.hash u.ve nw
+          obtain ⟨b1, _, b3⟩ := admit_done hq hb hl hna
+          exact ⟨hqf.writeQ, hqf.readQ, hqf.running,
+            rinv_of_done hb b1 (handleAdmit_frame0 _ _ _ _ _ _)
+              (hb.run.sk.same (handleAdmit_sk _ _ _ _ _ _)) hqf.writeQ hqf.readQ b3⟩
+        · by_cases c4 : tooBig p nw = true
+          · have hm : wstep p .good s (.dispatch u nw cur) =
+                (removeCandidate p s u.key u.ve, none) := by
+              simp only [wstep, if_neg c1, if_neg c2, if_neg c3, if_pos c4]
+            rw [hm]
+            have hqf := removeCandidate_qframe p s u.key u.ve
+            obtain ⟨b1, _, b3⟩ := reject_done hq hb hl.dirty hna
+            exact ⟨hqf.writeQ, hqf.readQ, hqf.running,
+              rinv_of_done hb b1 (removeCandidate_frame0 _ _ _ _)
+                (hb.run.sk.same (removeCandidate_sk _ _ _ _)) hqf.writeQ hqf.readQ b3⟩
+          · have hm : wstep p .good s (.dispatch u nw cur) =
+                (s, some (.scan u nw (s.sk.frequency u.hash) s.prob {})) := by
+              simp only [wstep, if_neg c1, if_neg c2, if_neg c3, if_neg c4]
+            rw [hm]
+            refine ⟨rfl, rfl, rfl, rfl, hb, hl, hna, ?_⟩
+            exact ⟨fun m hm => by simpa using hm, by simpa using hb.run.safe.probIds⟩
+  | scan u nw cf rest acc =>
+    have hb : WBase p s pd u := hb
+    show WNext p pd u s (wstep p .good s (.scan u nw cf rest acc))
+    obtain ⟨hf, hna, hls⟩ := hl
+    cases rest with
+    | nil =>
+      have hm : wstep p .good s (.scan u nw cf [] acc) = finishScan .good s u nw cf acc := rfl
+      rw [hm]
+      exact finishScan_next hb hf hna (by simpa using hls)
+    | cons n rest =>
+      by_cases hc : acc.vw < nw ∧ ¬ cf < acc.vf
+      · cases he : entryOfNode p s n.key n.info with
+        | some ve =>
+          have hm : wstep p .good s (.scan u nw cf (n :: rest) acc) =
+              (s, some (.scan u nw cf rest
+                { acc with vw := acc.vw + (getInfo s ve.info).weight,
+                           vf := acc.vf + s.sk.frequency n.hash,
+                           victims := acc.victims ++ [n], retries := 0 })) := by
+            simp only [wstep, if_pos hc, he]
+          rw [hm]
+          exact ⟨rfl, rfl, rfl, rfl, hb, hf, hna, hls.perm (perm_scan_victim _ _ _ _)⟩
+        | none =>
+          by_cases hr : acc.retries + 1 > Gen.MAX_CONSECUTIVE_RETRIES
+          · have hm : wstep p .good s (.scan u nw cf (n :: rest) acc) = finishScan .good s u nw cf
+                { acc with skipped := acc.skipped ++ [n], retries := acc.retries + 1 } := by
+              simp only [wstep, if_pos hc, he, if_pos hr]
+            rw [hm]
+            exact finishScan_next hb hf hna (hls.perm (perm_scan_skip _ _ _ _)).left
+          · have hm : wstep p .good s (.scan u nw cf (n :: rest) acc) =
+                (s, some (.scan u nw cf rest
+                  { acc with skipped := acc.skipped ++ [n], retries := acc.retries + 1 })) := by
+              simp only [wstep, if_pos hc, he, if_neg hr]
+            rw [hm]
+            exact ⟨rfl, rfl, rfl, rfl, hb, hf, hna, hls.perm (perm_scan_skip _ _ _ _)⟩
+      · have hm : wstep p .good s (.scan u nw cf (n :: rest) acc) =
+            finishScan .good s u nw cf acc := by
+          simp only [wstep, if_neg hc]
+        rw [hm]
+        exact finishScan_next hb hf hna hls.left
+  | victims u nw vs sk =>
+    have hb : WBase p s pd u := hb
+    show WNext p pd u s (wstep p .good s (.victims u nw vs sk))
+    obtain ⟨hf, hna, hls⟩ := hl
+    cases vs with
+    | nil =>
+      have hm : wstep p .good s (.victims u nw [] sk) =
+          (moveSkipped sk (handleAdmit p s u.key u.hash u.ve nw), none) := rfl
+      rw [hm]
+      obtain ⟨b1, b2, b3⟩ := admit_done hq hb hf hna
+      have hqf := (handleAdmit_qframe p s u.key u.hash u.ve nw).trans (moveSkipped_qframe sk _)
+      obtain ⟨m1, _⟩ := moveSkipped_safe sk _ b1 (fun n hn => b2 n (hls.1 n (by simpa using hn)))
+      exact ⟨hqf.writeQ, hqf.readQ, hqf.running,
+        rinv_of_done hb m1 ((handleAdmit_frame0 _ _ _ _ _ _).trans (moveSkipped_frame0 _ _))
+          (hb.run.sk.same ((handleAdmit_sk _ _ _ _ _ _).trans (moveSkipped_sk _ _)))
+          hqf.writeQ hqf.readQ (b3.same (moveSkipped_same _ _))⟩
+    | cons n vs =>
+      have hn : n ∈ s.prob := hls.1 n (by simp)
+      have hfind : findAo s.prob n.id = some n := findAo_of_mem hb.run.safe.probIds hn
+      have hnd := hls.2
+      simp only [List.cons_append, List.map_cons, List.nodup_cons] at hnd
+      have hrest : Lists (vs ++ sk) s :=
+        ⟨fun m hm => hls.1 m (by simp only [List.cons_append]; exact List.mem_cons_of_mem _ hm), hnd.2⟩
+      cases he : entryOfNode p s n.key n.info with
+      | none =>
+        have hm : wstep p .good s (.victims u nw (n :: vs) sk) =
+            (s, some (.victims u nw vs (sk ++ [n]))) := by
+          simp only [wstep, hfind, he]
+        rw [hm]
+        refine ⟨rfl, rfl, rfl, rfl, hb, hf, hna, hls.perm ?_⟩
+        rw [← List.append_assoc]
+        exact List.perm_append_singleton _ _ |>.trans (by simp only [List.cons_append]; exact List.Perm.refl _)
+      | some ve =>
+        have hm : wstep p .good s (.victims u nw (n :: vs) sk) =
+            (handleRemove { s with map := AL.erase s.map n.key } ve,
+             some (.victims u nw vs sk)) := by
+          simp only [wstep, hfind, he]
+        rw [hm]
+        have hinfo := entryOfNode_info hd7 he
+        have hget := entryOfNode_get he
+        obtain ⟨g1, gmap, gmono, gdirty⟩ := evict_g hb.g hget
+        obtain ⟨_, hkeep, _⟩ := handleRemove_safe (safe_eraseMap hb.run.safe n.key) ve
+        have hfr : Frame0 s (handleRemove { s with map := AL.erase s.map n.key } ve) :=
+          (frame0_erase s n.key).trans (handleRemove_frame0 _ _)
+        have hqf : QFrame s (handleRemove { s with map := AL.erase s.map n.key } ve) :=
+          (qframe_set_map s _).trans (handleRemove_qframe _ _)
+        have hb' := wbase_of hb g1.safe hfr
+          (hb.run.sk.same ((skSame_erase s n.key).trans (handleRemove_sk _ _)))
+          hqf.writeQ hqf.readQ g1.inv
+        refine ⟨hqf.writeQ, hqf.readQ, hqf.running, rfl, hb', ?_, gmono _ hna, ?_⟩
+        · rw [hqf.writeQ]
+          refine ⟨fun hd => hf.dirty (by rw [gdirty] at hd; exact hd), ?_, ?_, fun hx => by cases hx⟩
+          · intro c hc hi
+            exact hf.wcur c (hfr.mapSub hb.run.map.kn _ _ hc) hi
+          · intro _
+            rcases hf.gone rfl with ⟨c, a, b⟩ | g
+            · refine Or.inl ⟨c, gmap u.key c a ?_, b⟩
+              intro e
+              rw [e, hget] at a
+              have hadm := hb.run.safe.probAdm hn
+              rw [← hinfo, Option.some.inj a, b, hna] at hadm
+              cases hadm
+            · exact Or.inr g
+        · refine ⟨fun m hm => hkeep m (hrest.1 m hm) (fun e => ?_), hrest.2⟩
+          have hmid : m.id = n.id := hb.run.safe.info_inj (hrest.1 m hm) hn (e.trans hinfo)
+          exact hnd.1 (List.mem_map.mpr ⟨m, hm, hmid⟩)
+  | reject u sk =>
+    have hb : WBase p s pd u := hb
+    show WNext p pd u s (wstep p .good s (.reject u sk))
+    obtain ⟨hd, hna, hls⟩ := hl
+    have hm : wstep p .good s (.reject u sk) =
+        (moveSkipped sk (removeCandidate p s u.key u.ve), none) := rfl
+    rw [hm]
+    obtain ⟨b1, b2, b3⟩ := reject_done hq hb hd hna
+    have hqf := (removeCandidate_qframe p s u.key u.ve).trans (moveSkipped_qframe sk _)
+    obtain ⟨m1, _⟩ := moveSkipped_safe sk _ b1 (fun n hn => b2 n (hls.1 n hn))
+    exact ⟨hqf.writeQ, hqf.readQ, hqf.running,
+      rinv_of_done hb m1 ((removeCandidate_frame0 _ _ _ _).trans (moveSkipped_frame0 _ _))
+        (hb.run.sk.same ((removeCandidate_sk _ _ _ _).trans (moveSkipped_sk _ _)))
+        hqf.writeQ hqf.readQ (b3.same (moveSkipped_same _ _))⟩
+  | readCurrentB1 u => exact hl.elim
+  | clearDirtyB1 u nw cur => exact hl.elim
+  | victimsB2 u nw vs sk ev al => exact hl.elim
+  | putBackB2 u ev sk => exact hl.elim
+
+/-! ### maintenance only deletes -/
+
+/-- A micro-step of `ConcM` changes the map only by removing bindings, never decreases the
+allocation counter and never adds to the write queue. -/
+theorem micro_frame {p : Params} (hq : NoQuirks p) (ex : Bool) (s : SState) (ph : Phase) :
+    Frame s (micro p ex s ph).1 ∧ ∀ op, op ∈ (micro p ex s ph).1.writeQ → op ∈ s.writeQ := by
+  cases ph with
+  | reads f n =>
+    cases n with
+    | zero => exact ⟨Frame.refl s, fun _ h => h⟩
+    | succ n =>
+      cases hrq : s.readQ with
+      | nil =>
+        have hm : (micro p ex s (.reads f (n + 1))).1 = s := by simp only [micro, hrq]
+        rw [hm]; exact ⟨Frame.refl s, fun _ h => h⟩
+      | cons op rest =>
+        have hm : (micro p ex s (.reads f (n + 1))).1 = applyRead p { s with readQ := rest } op := by
+          simp only [micro, hrq]
+        rw [hm]
+        refine ⟨applyRead_frame hq s op rest hrq, fun o ho => ?_⟩
+        rw [(applyRead_qframe p { s with readQ := rest } op).writeQ] at ho
+        exact ho
+  | writes f n =>
+    cases n with
+    | zero => exact ⟨Frame.refl s, fun _ h => h⟩
+    | succ n =>
+      cases hwq : s.writeQ with
+      | nil =>
+        have hm : (micro p ex s (.writes f (n + 1))).1 = s := by simp only [micro, hwq]
+        rw [hm]; exact ⟨Frame.refl s, fun _ h => by rw [hwq] at h; exact h⟩
+      | cons op rest =>
+        have hm : (micro p ex s (.writes f (n + 1))).1
+            = applyWrite p { s with writeQ := rest } op := by simp only [micro, hwq]
+        rw [hm]
+        refine ⟨((frame0_set_writeQ s rest).trans (applyWrite_frame0 _ _ _)).toFrame, fun o ho => ?_⟩
+        rw [(applyWrite_qframe p { s with writeQ := rest } op).writeQ] at ho
+        exact List.mem_cons_of_mem _ ho
+  | enable f =>
+    have hm : (micro p ex s (.enable f)).1
+        = (if shouldEnableSketch p s = true then enableSketch p s else s) := by
+      simp only [micro]; split <;> (split <;> rfl)
+    rw [hm]
+    split
+    · refine ⟨(enableSketch_frame0 p s).toFrame, fun o ho => ?_⟩
+      rw [(enableSketch_qframe p s).writeQ] at ho; exact ho
+    · exact ⟨Frame.refl s, fun _ h => h⟩
+  | expireWo n =>
+    cases n with
+    | zero => exact ⟨Frame.refl s, fun _ h => h⟩
+    | succ n =>
+      have hm : (micro p ex s (.expireWo (n + 1))).1 = (expireWoBody p s).1 := by
+        simp only [micro]; split <;> rfl
+      rw [hm, expireWoBody_eq]
+      refine ⟨(removeExpiredWo_frame0 p 1 s).toFrame, fun o ho => ?_⟩
+      rw [(removeExpiredWo_qframe p 1 s).writeQ] at ho; exact ho
+  | expireAo n =>
+    cases n with
+    | zero => exact ⟨Frame.refl s, fun _ h => h⟩
+    | succ n =>
+      have hm : (micro p ex s (.expireAo (n + 1))).1 = (expireAoBody p s).1 := by
+        simp only [micro]; split <;> rfl
+      rw [hm, expireAoBody_eq]
+      refine ⟨(removeExpiredAo_frame0 p 1 s).toFrame, fun o ho => ?_⟩
+      rw [(removeExpiredAo_qframe p 1 s).writeQ] at ho; exact ho
+  | lru n wte ev =>
+    cases n with
+    | zero => exact ⟨Frame.refl s, fun _ h => h⟩
+    | succ n =>
+      have hm : (micro p ex s (.lru (n + 1) wte ev)).1 = (lruBody p s wte ev).1 := by
+        simp only [micro]; split <;> rfl
+      rw [hm, lruBody_eq]
+      refine ⟨(evictLruLoop_frame0 p 1 s wte ev).toFrame, fun o ho => ?_⟩
+      rw [(evictLruLoop_qframe p 1 s wte ev).writeQ] at ho; exact ho
+  | finish =>
+    cases ex with
+    | true => exact ⟨(frame0_set_ec_ws s _ _).toFrame, fun _ h => h⟩
+    | false =>
+      exact ⟨((frame0_set_ec_ws s _ _).trans (frame0_set_running _ _)).toFrame, fun _ h => h⟩
+
+/-- A step of the application of an `Upsert` changes the map only by removing bindings. -/
+theorem wstep_frame0 {p : Params} {s : SState} {Qr : List WOp} {pc : WPc}
+    (hl : WLocal p s Qr pc) : Frame0 s (wstep p .good s pc).1 := by
+  cases pc with
+  | clearDirty u =>
+    show Frame0 s (withInfo s u.ve.info (fun i => { i with dirty := false }))
+    exact frame0_withInfo' _ _ _
+  | readCurrent u => exact Frame0.refl s
+  | dispatch u nw cur =>
+    simp only [wstep]
+    split
+    · exact applyUpdate_frame0 _ _ _ _ _
+    · split
+      · exact Frame0.refl s
+      · split
+        · exact handleAdmit_frame0 _ _ _ _ _ _
+        · split
+          · exact removeCandidate_frame0 _ _ _ _
+          · exact Frame0.refl s
+  | scan u nw cf rest acc =>
+    have hfin : ∀ a, Frame0 s (finishScan .good s u nw cf a).1 := by
+      intro a; unfold finishScan; split <;> exact Frame0.refl s
+    cases rest with
+    | nil => exact hfin _
+    | cons n rest =>
+      simp only [wstep]
+      split
+      · split
+        · exact Frame0.refl s
+        · split
+          · exact hfin _
+          · exact Frame0.refl s
+      · exact hfin _
+  | victims u nw vs sk =>
+    cases vs with
+    | nil => exact (handleAdmit_frame0 _ _ _ _ _ _).trans (moveSkipped_frame0 _ _)
+    | cons n vs =>
+      simp only [wstep]
+      split
+      · exact frame0_fail s _
+      · split
+        · exact (frame0_erase s n.key).trans (handleRemove_frame0 _ _)
+        · exact Frame0.refl s
+  | reject u sk => exact (removeCandidate_frame0 _ _ _ _).trans (moveSkipped_frame0 _ _)
+  | readCurrentB1 u => exact hl.elim
+  | clearDirtyB1 u nw cur => exact hl.elim
+  | victimsB2 u nw vs sk ev al => exact hl.elim
+  | putBackB2 u ev sk => exact hl.elim
+
+/-! ### the invariant of the reachable states of `ConcF` -/
+
+def FInv (p : Params) (c : FState) : Prop :=
+  match c.run with
+  | none => CSInv p ⟨c.s, c.pending⟩ ∧ QIds c.s (c.s.writeQ ++ pendWrites c.pending)
+  | some r =>
+    (r.explicit = true → c.s.running = false) ∧
+    match r.w with
+    | none => CSInv p ⟨view c.s, c.pending⟩ ∧ QIds c.s (c.s.writeQ ++ pendWrites c.pending)
+    | some pc =>
+      WBase p c.s c.pending (opOf pc) ∧ WLocal p c.s (c.s.writeQ ++ pendWrites c.pending) pc
+
+theorem finv_init (p : Params) : FInv p {} :=
+  ⟨csinv_init p, fun _ _ _ _ _ hm => by cases hm⟩
+
+theorem beginRun_fields (s : SState) (ex : Bool) :
+    (beginRun s ex).map = s.map ∧ (beginRun s ex).nextId = s.nextId ∧
+    (beginRun s ex).writeQ = s.writeQ := by
+  cases ex <;> exact ⟨rfl, rfl, rfl⟩
+
+theorem qids_plain {p : Params} {s : SState} {pd : List (Tid × Pend)}
+    (h : QIds s (s.writeQ ++ pendWrites pd)) (hkn : (AL.keys s.map).Nodup)
+    (hid : ∀ k c, AL.get? s.map k = some c → c.id < s.nextId) (htid : (pd.map (·.1)).Nodup)
+    (e : ConcS.Ev) (hpl : isPlain e = true) {c' : CState}
+    (hs : ConcS.step p ⟨s, pd⟩ e = some c') :
+    QIds c'.s (c'.s.writeQ ++ pendWrites c'.pending) :=
+  qids_eff (ex := []) h hkn hid (plain_step_eff p htid e hpl hs).2
+
+theorem step_finv {p : Params} (hq : NoQuirks p) (hsm : SmallSketch p) {c c' : FState}
+    (h : FInv p c) (e : ConcM.Ev) (hs : step p .good c e = some c') : FInv p c' := by
+  cases e with
+  | other e0 =>
+    simp only [step] at hs
+    by_cases hpl : isPlain e0 = true
+    · rw [if_pos hpl] at hs
+      cases h0 : ConcS.step p ⟨c.s, c.pending⟩ e0 with
+      | none => rw [h0] at hs; cases hs
+      | some c1 =>
+        rw [h0] at hs
+        have e := Option.some.inj hs
+        subst e
+        unfold FInv at h ⊢
+        cases hr : c.run with
+        | none =>
+          rw [hr] at h
+          simp only
+          exact ⟨step_csinv hq hsm h.1 e0 h0,
+            qids_plain h.2 h.1.top.map.kn (fun k c hc => (CInv.mapId h.1.cinv k c hc).1) h.1.tids
+              e0 hpl h0⟩
+        | some r =>
+          rw [hr] at h
+          dsimp only at h
+          simp only
+          refine ⟨fun hx => by rw [step_running p _ _ e0 hpl h0]; exact h.1 hx, ?_⟩
+          cases hw : r.w with
+          | none =>
+            rw [hw] at h
+            simp only
+            have hv := step_view p c.s c.pending e0 hpl
+            rw [h0] at hv
+            have hri := rinv_of_view h.2.1
+            exact ⟨step_csinv hq hsm h.2.1 e0 hv,
+              qids_plain h.2.2 hri.run.map.kn (fun k c hc => (hri.cinv.mapId k c hc).1) hri.tids
+                e0 hpl h0⟩
+          | some pc =>
+            rw [hw] at h
+            simp only
+            exact plain_step_winv hq h.2.1 h.2.2 e0 hpl h0
+    · rw [if_neg hpl] at hs; cases hs
+  | mBegin t ex =>
+    simp only [step] at hs
+    unfold FInv at h ⊢
+    cases hr : c.run with
+    | some r =>
+      rw [hr] at hs h
+      dsimp only at hs
+      cases ex with
+      | true => simp only [if_true] at hs; cases hs
+      | false =>
+        simp only [Bool.false_eq_true, if_false] at hs
+        split at hs
+        · rw [← Option.some.inj hs]
+          simp only [hr]
+          exact h
+        · cases hs
+    | none =>
+      rw [hr] at hs h
+      dsimp only at hs
+      rw [← Option.some.inj hs]
+      dsimp only
+      obtain ⟨f1, f2, f3⟩ := beginRun_fields c.s ex
+      refine ⟨fun hx => by rw [hx]; exact h.1.running, begin_view h.1 ex, ?_⟩
+      rw [f3]
+      exact h.2.mono (fun k c hc => by rw [f1] at hc; exact hc) (by rw [f2]; exact Nat.le_refl _)
+        (fun _ _ _ _ _ hm => hm)
+  | mStep t =>
+    simp only [step] at hs
+    unfold FInv at h ⊢
+    cases hr : c.run with
+    | none => rw [hr] at hs; cases hs
+    | some r =>
+      rw [hr] at hs h
+      dsimp only at hs h
+      by_cases ht : r.tid = t
+      · rw [if_pos ht] at hs
+        rw [← Option.some.inj hs]
+        cases hw : r.w with
+        | some pc =>
+          rw [hw] at h
+          dsimp only at h
+          obtain ⟨n1, n2, n3, n4⟩ := wstep_next hq h.2.1 h.2.2
+          have hm : fmicro p .good r.explicit c.s r.phase (some pc) =
+              ((wstep p .good c.s pc).1, some r.phase, (wstep p .good c.s pc).2) := rfl
+          rw [hm]
+          simp only [Option.map_some]
+          refine ⟨fun hx => by rw [n3]; exact h.1 hx, ?_⟩
+          cases hpc : (wstep p .good c.s pc).2 with
+          | some pc' =>
+            rw [hpc] at n4
+            simp only
+            exact ⟨by rw [n4.1]; exact n4.2.1, n4.2.2⟩
+          | none =>
+            rw [hpc] at n4
+            simp only
+            exact ⟨view_of_rinv n4.1, n4.2⟩
+        | none =>
+          rw [hw] at h
+          dsimp only at h
+          have hri := rinv_of_view h.2.1
+          -- is this the receipt of an `Upsert`?
+          have hcases : (∃ f n key hash ve oldW newW rest, r.phase = .writes f (n + 1) ∧
+              c.s.writeQ = .upsert key hash ve oldW newW :: rest) ∨
+              fmicro p .good r.explicit c.s r.phase none =
+                ((micro p r.explicit c.s r.phase).1, (micro p r.explicit c.s r.phase).2, none) := by
+            cases hph : r.phase with
+            | writes f n =>
+              cases n with
+              | zero => exact Or.inr rfl
+              | succ n =>
+                cases hq' : c.s.writeQ with
+                | nil => exact Or.inr (by simp only [fmicro, hq'])
+                | cons op rest =>
+                  cases op with
+                  | remove k ve => exact Or.inr (by simp only [fmicro, hq'])
+                  | upsert key hash ve oldW newW =>
+                    exact Or.inl ⟨f, n, key, hash, ve, oldW, newW, rest, rfl, rfl⟩
+            | reads f n => exact Or.inr rfl
+            | enable f => exact Or.inr rfl
+            | expireWo n => exact Or.inr rfl
+            | expireAo n => exact Or.inr rfl
+            | lru n wte ev => exact Or.inr rfl
+            | finish => exact Or.inr rfl
+          rcases hcases with ⟨f, n, key, hash, ve, oldW, newW, rest, hph, hwq⟩ | hm
+          · have hm : fmicro p .good r.explicit c.s r.phase none =
+                ({ c.s with writeQ := rest }, some (.writes f n),
+                 some (.clearDirty ⟨key, hash, ve, oldW, newW⟩)) := by
+              rw [hph]; simp only [fmicro, hwq, firstPc]
+            rw [hm]
+            simp only [Option.map_some]
+            refine ⟨h.1, ?_, trivial⟩
+            have hc := hri.cinv
+            rw [hwq] at hc
+            have hqi := h.2.2
+            rw [hwq] at hqi
+            exact ⟨runinv_of_eq hri.run rfl rfl rfl rfl rfl rfl rfl rfl rfl,
+              hc.same (same_of_eq rfl rfl rfl rfl rfl rfl), hri.tids,
+              by show rest.length ≤ _; have := hri.wq; rw [hwq] at this
+                 exact Nat.le_trans (Nat.le_succ _) this,
+              hri.rq, hqi.mono (fun _ _ hc => hc) (Nat.le_refl _) (fun _ _ _ _ _ hm => hm)⟩
+          · rw [hm]
+            obtain ⟨m1, m2⟩ := micro_rinv hq hsm r.explicit hri r.phase
+            obtain ⟨fr, fq⟩ := micro_frame hq r.explicit c.s r.phase
+            have hqids : QIds (micro p r.explicit c.s r.phase).1
+                ((micro p r.explicit c.s r.phase).1.writeQ ++ pendWrites c.pending) := by
+              refine h.2.2.mono (fr.mapSub hri.run.map.kn) fr.nextId ?_
+              intro k hh v o w hmem
+              rcases List.mem_append.mp hmem with a | a
+              · exact List.mem_append_left _ (fq _ a)
+              · exact List.mem_append_right _ a
+            cases hph : (micro p r.explicit c.s r.phase).2 with
+            | some ph =>
+              simp only [Option.map_some]
+              refine ⟨fun hx => ?_, view_of_rinv m1, hqids⟩
+              rw [m2 (Or.inl (by rw [hph]; rfl))]
+              exact h.1 hx
+            | none =>
+              simp only [Option.map_none]
+              have hfin := micro_none hph
+              rw [hfin] at hqids ⊢
+              cases hex : r.explicit with
+              | true =>
+                rw [hex] at hqids
+                have hmm : (micro p true c.s .finish).1 = { c.s with ec := c.s.cec, ws := c.s.cws } :=
+                  rfl
+                rw [hmm] at hqids ⊢
+                rw [view_eq_of_not_running (h.1 hex)] at hqids ⊢
+                exact ⟨h.2.1, hqids⟩
+              | false =>
+                rw [hex] at hqids
+                exact ⟨h.2.1, hqids⟩
+      · rw [if_neg ht] at hs; cases hs
+
+theorem reach_finv {p : Params} (hq : NoQuirks p) (hsm : SmallSketch p) {c : FState}
+    (h : Reach p c) : FInv p c := by
+  induction h with
+  | init => exact finv_init p
+  | step e _ hs ih => exact step_finv hq hsm ih e hs
+
+/-! ### consequences -/
+
+/-- The map holds at most `|access-order list| + |logical queue|` entries. -/
+theorem cinv_map_length_le {p : Params} {s : SState} {Q : List WOp} (hc : CInv p s Q)
+    (hnc : NodesCore s) (hkn : (AL.keys s.map).Nodup) :
+    s.map.length ≤ s.prob.length + Q.length := by
+  let opKey : WOp → Nat := fun op => match op with
+    | .upsert k _ _ _ _ => k
+    | .remove k _ => k
+  have h1 : (AL.keys s.map).length ≤ (s.prob.map (·.key) ++ Q.map opKey).length := by
+    refine nodup_length_le _ _ hkn ?_
+    intro k hk
+    obtain ⟨ve, hve⟩ : ∃ ve, AL.get? s.map k = some ve := by
+      have := (AL.get?_isSome_iff s.map k).mpr hk
+      cases hx : AL.get? s.map k with
+      | none => rw [hx] at this; cases this
+      | some ve => exact ⟨ve, rfl⟩
+    rcases hc.cur k ve hve with ⟨hh, o, w, hq⟩ | ⟨hadm, _⟩
+    · exact List.mem_append_right _ (List.mem_map.mpr ⟨_, hq, rfl⟩)
+    · obtain ⟨id, hao⟩ := hnc.adm_ao hadm
+      obtain ⟨n, hn, _, hni⟩ := hnc.aoNode _ _ hao
+      refine List.mem_append_left _ (List.mem_map.mpr ⟨n, hn, ?_⟩)
+      have a1 := hc.nodeKey n hn
+      have a2 := hc.mapKey k ve hve
+      rw [hni] at a1
+      exact a1.symm.trans a2
+  rw [AL.keys_eq_map, List.length_map, List.length_append, List.length_map, List.length_map] at h1
+  exact h1
+
+theorem finv_nofault {p : Params} {c : FState} (h : FInv p c) : c.s.fault = none := by
+  unfold FInv at h
+  cases hr : c.run with
+  | none => rw [hr] at h; exact h.1.top.nofault
+  | some r =>
+    rw [hr] at h
+    dsimp only at h
+    cases hw : r.w with
+    | none => rw [hw] at h; exact h.2.1.top.nofault
+    | some pc => rw [hw] at h; exact h.2.1.run.safe.nofault
+
+/-- A micro-step of a run leaves every binding of the map unchanged or removes it. -/
+theorem finv_mstep_mapsub {p : Params} (hq : NoQuirks p) {c c' : FState} (h : FInv p c)
+    (t : Tid) (hs : step p .good c (.mStep t) = some c') :
+    ∀ k ve, AL.get? c'.s.map k = some ve → AL.get? c.s.map k = some ve := by
+  simp only [step] at hs
+  unfold FInv at h
+  cases hr : c.run with
+  | none => rw [hr] at hs; cases hs
+  | some r =>
+    rw [hr] at hs h
+    dsimp only at hs h
+    by_cases ht : r.tid = t
+    · rw [if_pos ht] at hs
+      rw [← Option.some.inj hs]
+      dsimp only
+      cases hw : r.w with
+      | some pc =>
+        rw [hw] at h
+        dsimp only at h
+        have hm : (fmicro p .good r.explicit c.s r.phase (some pc)).1 = (wstep p .good c.s pc).1 := rfl
+        rw [hm]
+        exact (wstep_frame0 h.2.2).mapSub h.2.1.run.map.kn
+      | none =>
+        rw [hw] at h
+        dsimp only at h
+        have hkn := (rinv_of_view h.2.1).run.map.kn
+        have hcases : (fmicro p .good r.explicit c.s r.phase none).1.map = c.s.map ∨
+            (fmicro p .good r.explicit c.s r.phase none).1 = (micro p r.explicit c.s r.phase).1 := by
+          cases hph : r.phase with
+          | writes f n =>
+            cases n with
+            | zero => exact Or.inr rfl
+            | succ n =>
+              cases hq' : c.s.writeQ with
+              | nil => exact Or.inr (by simp only [fmicro, hq'])
+              | cons op rest =>
+                cases op with
+                | remove k ve => exact Or.inr (by simp only [fmicro, hq'])
+                | upsert key hash ve oldW newW => exact Or.inl (by simp only [fmicro, hq'])
+          | reads f n => exact Or.inr rfl
+          | enable f => exact Or.inr rfl
+          | expireWo n => exact Or.inr rfl
+          | expireAo n => exact Or.inr rfl
+          | lru n wte ev => exact Or.inr rfl
+          | finish => exact Or.inr rfl
+        rcases hcases with e | e
+        · intro k ve hk; rw [e] at hk; exact hk
+        · rw [e]; exact (micro_frame hq r.explicit c.s r.phase).1.mapSub hkn
+    · rw [if_neg ht] at hs; cases hs
+
 end ConcF
 end MiniMoka
